@@ -178,11 +178,19 @@ def squash(n: str) -> str:
     return n.replace("_", "").upper()
 
 
-def expected(s: G.Schema, prefix: str) -> Dict[str, Any]:
+def ref_def(t: Any) -> Any:
+    while isinstance(t, G.TArray):
+        t = t.elem
+    return t.d if isinstance(t, G.TRef) else None
+
+
+def expected(s: G.Schema, prefix: str, prefixes: Optional[Dict[int, str]] = None) -> Dict[str, Any]:
+    """prefixes: {id(file): its c.name_prefix} — a referenced definition carries the prefix of the file that DECLARES it"""
     P, U = pascal_prefix(prefix), prefix.upper()
+    prefixes = prefixes or {}
     e: Dict[str, Any] = {"c_structs": {}, "c_typedefs": set(), "c_defines_exact": set(), "c_defines_loose": set(), "c_funcs": set(),
                          "c_funcs_O": set(), "go_structs": {}, "go_types_exact": set(), "go_types_loose": set(), "go_consts_exact": set(),
-                         "go_consts_loose": set(), "py_classes": {}, "py_enums": {}, "py_consts": set(), "py_aliases": set()}
+                         "go_consts_loose": set(), "py_classes": {}, "py_enums": {}, "py_consts": set(), "py_aliases": set(), "c_field_refs": {}}
     for d in all_defs(s):
         sc = G.scope_names(d)
         nested = len(sc) > 1
@@ -194,6 +202,12 @@ def expected(s: G.Schema, prefix: str) -> Dict[str, Any]:
             cn = P + "".join(sc)
             fields = sorted(d.fields, key=lambda f: f.num)  # emitted in field-number order
             e["c_structs"][cn] = [f.name for f in fields]
+            e["c_field_refs"][cn] = {}
+            for f in fields:
+                rd = ref_def(f.type)
+                if rd is not None:
+                    home = getattr(rd, "home", s)
+                    e["c_field_refs"][cn][f.name] = pascal_prefix(prefixes.get(id(home), prefix if home is s else "")) + "".join(G.scope_names(rd))
             for fn in ("Encode", "Decode"):
                 e["c_funcs"].add(fn + cn)
                 e["c_funcs_O"].add(fn + cn)
@@ -225,21 +239,23 @@ def expected(s: G.Schema, prefix: str) -> Dict[str, Any]:
 
 # --------------------------------------------------------------------------- declared names
 def scan_h(text: str) -> Dict[str, Any]:
-    out: Dict[str, Any] = {"structs": {}, "typedefs": set(), "defines": set(), "funcs": {}}
+    out: Dict[str, Any] = {"structs": {}, "typedefs": set(), "defines": set(), "funcs": {}, "field_types": {}}
     cur = None
     for line in text.split("\n"):
         m = re.match(r"^struct (\w+) \{", line)
         if m:
             cur = m.group(1)
             out["structs"][cur] = []
+            out["field_types"][cur] = {}
             continue
         if cur is not None:
             if line.startswith("}"):
                 cur = None
                 continue
-            m = re.match(r"^\s+(?:struct )?[\w ]*?\b(\w+)((?:\[\d+\])*);", line)
+            m = re.match(r"^\s+((?:struct )?[\w ]*?)\b(\w+)((?:\[\d+\])*);", line)
             if m:
-                out["structs"][cur].append(m.group(1))
+                out["structs"][cur].append(m.group(2))
+                out["field_types"][cur][m.group(2)] = (m.group(1).split() or [""])[-1]
             continue
         m = re.match(r"^typedef .*?\b(\w+)((?:\[\d+\])*);", line)
         if m:
@@ -348,8 +364,8 @@ def render_all(path: str, ext_free: bool) -> Dict[str, Any]:
     return res
 
 
-def compare_names(run: common.Run, rep: Dict[str, Any], s: G.Schema, prefix: str, res: Dict[str, Any]) -> None:
-    e = expected(s, prefix)
+def compare_names(run: common.Run, rep: Dict[str, Any], s: G.Schema, prefix: str, res: Dict[str, Any], prefixes: Optional[Dict[int, str]] = None) -> None:
+    e = expected(s, prefix, prefixes)
     base = s.base()
 
     def bad(lang: str, what: str, got: Any, want: Any) -> None:
@@ -367,6 +383,10 @@ def compare_names(run: common.Run, rep: Dict[str, Any], s: G.Schema, prefix: str
         run.nontrivial(("c", opt, len(h["structs"]), len(h["typedefs"]), len(h["defines"]), bool(prefix)))
         if h["structs"] != e["c_structs"]:
             bad(tag, "struct names and field names", h["structs"], e["c_structs"])
+        else:
+            got_refs = {st: {f: h["field_types"][st].get(f) for f in refs} for st, refs in e["c_field_refs"].items()}
+            if got_refs != e["c_field_refs"]:
+                bad(tag, "type names of fields that refer to a named definition (prefix of the DECLARING file)", got_refs, e["c_field_refs"])
         if h["typedefs"] != e["c_typedefs"]:
             bad(tag, "typedef names (enums, aliases)", sorted(h["typedefs"]), sorted(e["c_typedefs"]))
         # macros: constants, top-level enum members and size constants exactly; nested enum members modulo `_`
@@ -440,13 +460,19 @@ def _js(x: Any) -> Any:
     return x
 
 
-def strip_prefix(text: str, prefix: str) -> str:
+def strip_prefix(text: str, prefix: Any) -> str:
+    if not isinstance(prefix, str):
+        for p in sorted(prefix, key=len, reverse=True):
+            text = strip_prefix(text, p)
+        return text
+    if not prefix:
+        return text
     P, U = pascal_prefix(prefix), prefix.upper()
     text = re.sub(re.escape(P) + r"(?=[A-Z])", "", text)
     return text.replace(U, "")
 
 
-def compare_prefix(run: common.Run, rep: Dict[str, Any], with_p: Dict[str, Any], without: Dict[str, Any], prefix: str) -> None:
+def compare_prefix(run: common.Run, rep: Dict[str, Any], with_p: Dict[str, Any], without: Dict[str, Any], prefix: Any) -> None:
     for key, val in with_p.items():
         if key == "proto" or key not in without:
             continue
@@ -562,29 +588,31 @@ def check(run: common.Run, drv: common.Driver, rng: random.Random, tier: str) ->
             if main is None:
                 run.count("renamed_program_rejected_for_flat_name_collision")
                 continue
-            prefix = rng.choice(PREFIXES)
+            files = main.all_files()
+            # every file gets its OWN prefix (or none): a referenced definition carries the prefix of its declaring file
+            chosen = rng.sample(PREFIXES + [""], len(files)) if len(files) <= len(PREFIXES) + 1 else [rng.choice(PREFIXES) for _ in files]
+            pfx = {id(s): p for s, p in zip(files, chosen)}
             d = sc.path(f"p{k}")
             os.makedirs(d)
             dn = sc.path(f"p{k}n")
             os.makedirs(dn)
-            files = main.all_files()
-            for s in files:
-                s.options = [("c.name_prefix", prefix)]
-            texts = G.program_files(main, rng)
             for s in files:
                 s.options = []
             texts_n = G.program_files(main, None)
-            # same statement separators in both variants: print the prefixed variant from the plain one
+            # same text in both variants but for the option line
             texts = {}
-            for fn, t in texts_n.items():
-                lines = t.split("\n")
+            for s in files:
+                fn = f"{s.base()}.bitproto"
+                lines = texts_n[fn].split("\n")
                 at = max([i for i, l in enumerate(lines) if l.startswith("import ")] + [0]) + 1
-                texts[fn] = "\n".join(lines[:at] + [f'option c.name_prefix = "{prefix}"'] + lines[at:])
+                opt = [f'option c.name_prefix = "{pfx[id(s)]}"'] if pfx[id(s)] else []
+                texts[fn] = "\n".join(lines[:at] + opt + lines[at:])
             for fn in texts:
                 open(os.path.join(d, fn), "w").write(texts[fn])
                 open(os.path.join(dn, fn), "w").write(texts_n[fn])
             for s in files:
                 run.evaluated()
+                prefix = pfx[id(s)]
                 rep = {"input": {"files": texts, "compiled": f"{s.base()}.bitproto", "prefix": prefix}}
                 ext_free = not has_ext(s)
                 try:
@@ -595,10 +623,11 @@ def check(run: common.Run, drv: common.Driver, rng: random.Random, tier: str) ->
                     run.notes.setdefault("not_accepted", []).append(str(ex)[:200])
                     break
                 run.count("files_compiled")
+                run.count("prefix:" + (prefix or "none"))
                 run.count("depth=%d" % max([len(G.scope_names(x)) for x in all_defs(s)] + [0]))
-                compare_names(run, rep, s, prefix, with_p)
-                compare_names(run, dict(rep, prefix=""), s, "", without)
-                compare_prefix(run, rep, with_p, without, prefix)
+                compare_names(run, rep, s, prefix, with_p, pfx)
+                compare_names(run, dict(rep, prefix=""), s, "", without, {})
+                compare_prefix(run, rep, with_p, without, [p for p in chosen if p])
                 tie_defnames(run, drv, with_p["proto"], prefix, rep)
                 tie_defnames(run, drv, without["proto"], "", rep)
                 if k % 15 == 0:
